@@ -17,6 +17,8 @@
 (*   Reorder  writer re-orders by record index (FALSE: arrival order)       *)
 (*   Header   SAM commands: Main receives the header before its selects     *)
 (*   HdrSel   Main selects on the error channel while waiting for the header*)
+(*   Skip     records the writer passes over without writing (the           *)
+(*            --reference record inside a `variants` alignment)             *)
 (*   fault    the one fault this behaviour injects                          *)
 (* The write stage counts Write calls so that a fault can hit the header    *)
 (* line or any record.                                                      *)
@@ -176,15 +178,17 @@ WriterAck ==         \* top of the loop body (the Recv hook fires here): the rec
   /\ UNCHANGED <<cfg, rd, nxt, chIn, closedIn, w1, w2, chMid, closedMid, chOut, closedOut, written, main, faulted>>
 NextToWrite == IF cfg.Reorder THEN wr.counter ELSE (CHOOSE r \in wr.buf : TRUE)
 CanWrite == wr.st = "flush" /\ (IF cfg.Reorder THEN wr.counter \in wr.buf ELSE wr.buf # {})
-WriterWrite ==       \* one record: its Write calls succeed
+Skipped(r) == r \in cfg.Skip
+WritesOf(r) == IF Skipped(r) THEN 0 ELSE cfg.WritesPer
+WriterWrite ==       \* one record: its Write calls succeed (a skipped record is only dropped from the buffer)
   /\ CanWrite
-  /\ \A k \in (wr.nwrites + 1)..(wr.nwrites + cfg.WritesPer) : ~WriteFails(k)
-  /\ wr' = [wr EXCEPT !.buf = @ \ {NextToWrite}, !.counter = @ + 1, !.nwrites = @ + cfg.WritesPer]
-  /\ written' = Append(written, NextToWrite)
+  /\ \A k \in (wr.nwrites + 1)..(wr.nwrites + WritesOf(NextToWrite)) : ~WriteFails(k)
+  /\ wr' = [wr EXCEPT !.buf = @ \ {NextToWrite}, !.counter = @ + 1, !.nwrites = @ + WritesOf(NextToWrite)]
+  /\ written' = IF Skipped(NextToWrite) THEN written ELSE Append(written, NextToWrite)
   /\ UNCHANGED <<cfg, rd, nxt, chIn, closedIn, w1, w2, chMid, closedMid, chOut, closedOut, main, faulted>>
 WriterWriteFail ==   \* a Write call returns an error: cerr <- err
   /\ \/ wr.st = "hdr" /\ WriteFails(wr.nwrites + 1)
-     \/ CanWrite /\ \E k \in (wr.nwrites + 1)..(wr.nwrites + cfg.WritesPer) : WriteFails(k)
+     \/ CanWrite /\ \E k \in (wr.nwrites + 1)..(wr.nwrites + WritesOf(NextToWrite)) : WriteFails(k)
   /\ wr' = [wr EXCEPT !.st = "blockedErr"] /\ faulted' = TRUE
   /\ UNCHANGED <<cfg, rd, nxt, chIn, closedIn, w1, w2, chMid, closedMid, chOut, closedOut, written, main>>
 WriterFlushed ==     \* nothing more to write for now: back to the receive
@@ -214,12 +218,13 @@ Next == /\ Alive
 Spec == Init /\ [][Next]_vars /\ WF_vars(Next)
 
 (* ---- properties -------------------------------------------------------------------- *)
-OrderInv == \A k \in 1..Len(written) : written[k] = k - 1                      \* C12: output is a prefix of the input order
-DoneOK   == main = "retNil" => /\ written = [k \in 1..cfg.N |-> k - 1]           \* C12/C18/C19: success means complete, in order,
+Expected == SelectSeq([k \in 1..cfg.N |-> k - 1], LAMBDA r : r \notin cfg.Skip)   \* what a complete output holds, in input order
+OrderInv == Len(written) <= Len(Expected) /\ written = SubSeq(Expected, 1, Len(written))   \* C12: output is a prefix of the input order
+DoneOK   == main = "retNil" => /\ written = Expected                             \* C12/C18/C19: success means complete, in order,
                                /\ ~faulted                                       \*   and nothing failed
 NoLostRecord == \A r \in 0..(cfg.N - 1) :                                        \* every record is somewhere until written
    (r < nxt /\ ~faulted) =>
-      \/ r \in wr.buf
+      \/ r \in wr.buf \/ (r \in cfg.Skip /\ r < wr.counter)
       \/ (\E k \in 1..Len(written) : written[k] = r)
       \/ (\E j \in 1..Len(chIn) : chIn[j] = r)
       \/ (\E m \in 1..Len(chOut) : chOut[m] = r)
